@@ -247,7 +247,24 @@ def run(ctx: Any, prog: Program) -> None:
                         break
                     cur = inner[0]
                     sig += iters(cur.iter)
-                key = [U(s.slice) for s in ast.walk(cur) if isinstance(s, ast.Subscript) and dotted(s.value) == f'{obj}._frames']
+                # the key as positions in the loop nest: `_frames[frame, side, mip]` under `for mip: for frame: for side:` is (1, 2, 0)
+                nest_vars: List[str] = []
+
+                def _targets(l_: ast.AST) -> List[str]:
+                    t_ = l_.target
+                    return [x.id for x in (t_.elts if isinstance(t_, ast.Tuple) else [t_]) if isinstance(x, ast.Name)]
+                l_ = n
+                while True:
+                    nest_vars += _targets(l_)
+                    inner_ = [s_ for s_ in l_.body if isinstance(s_, ast.For)]
+                    if len(inner_) != 1:
+                        break
+                    l_ = inner_[0]
+
+                def _key_of(sl: ast.AST) -> str:
+                    elts_ = sl.elts if isinstance(sl, ast.Tuple) else [sl]
+                    return '(' + ', '.join(f'loop{nest_vars.index(e.id)}' if isinstance(e, ast.Name) and e.id in nest_vars else ast.unparse(e) for e in elts_) + ')'
+                key = [_key_of(s.slice) for s in ast.walk(cur) if isinstance(s, ast.Subscript) and dotted(s.value) == f'{obj}._frames']
                 sig = [s.replace(obj + '.', '') for s in sig]
                 return sig, (key[0] if key else ''), n
         raise AnalysisError('frame loop nest not found')
@@ -696,9 +713,31 @@ def run(ctx: Any, prog: Program) -> None:
         for a, b in zip(ra, wa):
             if a.names and b.names and len(a.names) == len(b.names):
                 for i, (rn, wn) in enumerate(zip(a.names, b.names)):
-                    link = {'version': 'version', 'sequence_count': 'len(sequences)', 'seq_num': 'seq_num', 'clamp': 'seq.clamp', 'frame_count': 'len(seq.frames)', 'total_time': 'seq.duration', 'duration': 'duration'}
-                    if rn in link:
-                        ctx.check('C15.F6', link[rn] == wn, vtf, b.node, f'sheet v{ver}: read() takes `{rn}` where make_data packs `{wn}`', func='SheetSequence.make_data', text=f'sheet v{ver} field {rn}')
+                    # what the reader does with the local, and what the writer packs there - by role, not by name
+                    rrole = None
+                    seq_fields = [st.target.id for st in vtf.cls('SheetSequence').body if isinstance(st, ast.AnnAssign) and isinstance(st.target, ast.Name)]
+                    for c_ in ast.walk(fr_):
+                        if isinstance(c_, ast.Call) and dotted(c_.func) == 'SheetSequence':
+                            for ai_, a_ in enumerate(c_.args):
+                                if dotted(a_) == rn and ai_ < len(seq_fields):
+                                    rrole = seq_fields[ai_]
+                        if isinstance(c_, ast.Call) and dotted(c_.func) == 'range' and any(dotted(x_) == rn for x_ in c_.args):
+                            rrole = rrole or 'count'
+                        if isinstance(c_, ast.Assign) and any(isinstance(t_, ast.Subscript) and dotted(t_.slice) == rn for t_ in c_.targets):
+                            rrole = rrole or 'key'
+                    try:
+                        we_ = ast.parse(str(wn), mode='eval').body
+                    except SyntaxError:
+                        we_ = None
+                    wrole = None
+                    if isinstance(we_, ast.Attribute):
+                        wrole = we_.attr
+                    elif isinstance(we_, ast.Call) and dotted(we_.func) == 'len':
+                        wrole = 'count'
+                    elif isinstance(we_, ast.Name):
+                        wrole = 'key'
+                    if rrole is not None and wrole is not None:
+                        ctx.check('C15.F6', rrole == wrole, vtf, b.node, f'sheet v{ver}: read() uses slot {i} (`{rn}`) as {rrole} where make_data packs `{wn}` ({wrole})', func='SheetSequence.make_data', text=f'sheet v{ver} slot {i} {rrole}')
     fsrc, msrc = U(fr_), U(mk)
     ver_if = [n for n in ast.walk(fr_) if isinstance(n, ast.If) and U(n.test) == 'version == 0']
     if len(ver_if) != 1:
